@@ -415,6 +415,11 @@ def _single_section(prog, la, rep, classes, exempt_names):
             continue
         if enters[k] == 0:
             continue
+        inherits = [c.name for n in f.cfg.nodes for call in la.node_calls(f, n)
+                    for c in prog.callees(f.unit, call) if not isinstance(c, Ext) and enters.get(c.key, 0) >= 2]
+        if inherits:
+            rep.notes.setdefault('B-single_inherited', []).append('%s inherits from %s' % (f.name, sorted(set(inherits))))
+            continue   # root cause is reported at the callee
         rep.instance('B-single')
         ok = enters[k] <= 1
         rep.oblige('B-single', ok, {'function': f.name, 'critical_sections_on_worst_path': enters[k]})
